@@ -62,6 +62,24 @@ def make_pool(rng, size):
             eds = list(c09.edits(base))
             rule, pc, g = rng.choice(eds)
             pool.append((names[i], "malformed:" + rule, g))
+    # siblings: games that share their structure with another game of the pool (same transition lists but other final
+    # states / rewards, or an identical copy under another name) - anything cached across games by structure shows here
+    wf = [(n, k, g) for n, k, g in pool if not k.startswith("malformed")]
+    if wf and rng.random() < 0.6 and len(pool) < len(names):
+        n0, k0, g0 = rng.choice(wf)
+        g1 = copy.deepcopy(g0)
+        n = len(g1["players"])
+        how = rng.choice(["finals", "finals", "rewards", "copy"])
+        if how == "finals":
+            absorbing = [s for s in range(n) if all(t == s for _, t in g1["transition_list"][s]) and g1["rewards"][s] == 0]
+            others = [s for s in absorbing if s not in g1["final_states"]]
+            if others:
+                g1["final_states"] = [rng.choice(others)]
+            elif len(g1["final_states"]) > 1:
+                g1["final_states"] = g1["final_states"][:1]
+        elif how == "rewards":
+            g1["rewards"] = [r if all(t == s for _, t in g1["transition_list"][s]) else r + 1 for s, r in enumerate(g1["rewards"])]
+        pool.insert(rng.randrange(len(pool) + 1), (names[len(pool)], "sibling:" + how, g1))
     return pool
 
 
@@ -202,6 +220,7 @@ def decide(idx, seed, tier):
     rng = games.case_rng(seed, PID, "POOL", idx)
     size = 3 if idx % 3 == 0 else (4 if idx % 3 == 1 else rng.randint(1, 6))
     pool = make_pool(rng, size)
+    size = len(pool)
     # make sure mixes exist: force at least one solvable and one failing in 3/4-pools
     solo = solo_reference(pool)
     by_name = {n: (k, g) for n, k, g in pool}
@@ -247,6 +266,7 @@ def decide(idx, seed, tier):
         res["stats"]["run_twice"] += 1
         if pr:
             problems.append({"order": o, "second_run": True, "problems": pr[:3]})
+    res["stats"]["sibling_games"] = sum(1 for n, k, _ in pool if k.startswith("sibling"))
     res["stats"]["malformed_games"] = sum(1 for n, k, _ in pool if k.startswith("malformed"))
     res["stats"]["unsolvable_games"] = sum(1 for n, k, _ in pool if k == "unsolvable")
     if problems:
